@@ -313,6 +313,8 @@ enum GenOp {
     AddPoly(Vec<C64>, bool),
     SubPoly(Vec<C64>, bool),
     MulS(C64),
+    /// p = &p * s: the borrowed, non-assigning form; the result replaces p (it must carry p's tolerance on)
+    MulSRef(C64),
     DivS(C64),
     AddS(C64),
     SubS(C64),
@@ -324,6 +326,8 @@ struct Hist {
     init: Vec<C64>,
     /// None: start from Polynomial::new()
     via_new: bool,
+    /// with via_new: start from Polynomial::with_capacity(k) instead (the same zero polynomial)
+    via_capacity: Option<usize>,
     tol: Option<f64>,
     ops: Vec<GenOp>,
     x: C64,
@@ -346,6 +350,7 @@ fn opname(op: &GenOp) -> &'static str {
         GenOp::AddPoly(..) => "add_assign_polynomial",
         GenOp::SubPoly(..) => "sub_assign_polynomial",
         GenOp::MulS(_) => "mul_assign_scalar",
+        GenOp::MulSRef(_) => "mul_scalar_borrowed_rebound",
         GenOp::DivS(_) => "div_assign_scalar",
         GenOp::AddS(_) => "add_assign_scalar",
         GenOp::SubS(_) => "sub_assign_scalar",
@@ -359,7 +364,11 @@ fn cfmt(c: C64) -> String {
 fn run_hist<N: Sc>(rep: &mut Report, h: &Hist) {
     let fld = N::NAME;
     let tol = h.tol.unwrap_or(DEFAULT_TOL);
-    let mut p: Polynomial<N> = if h.via_new { Polynomial::new() } else { build(&h.init, None, true) };
+    let mut p: Polynomial<N> = match (h.via_new, h.via_capacity) {
+        (true, Some(k)) => Polynomial::with_capacity(k),
+        (true, None) => Polynomial::new(),
+        _ => build(&h.init, None, true),
+    };
     if let Some(t) = h.tol {
         let _ = p.set_tolerance(t);
     }
@@ -369,8 +378,8 @@ fn run_hist<N: Sc>(rep: &mut Report, h: &Hist) {
     let base = |log: &Vec<J>| -> J {
         J::obj()
             .set("field", field_name(h.complex))
-            .set("initial", if h.via_new { J::from("Polynomial::new()") } else { pj(h.complex, &h.init) })
-            .set("built_with", if h.via_new { "Polynomial::new()" } else { "from_slice (coefficients reversed)" })
+            .set("initial", if h.via_new { J::from(if h.via_capacity.is_some() { "Polynomial::with_capacity(k)" } else { "Polynomial::new()" }) } else { pj(h.complex, &h.init) })
+            .set("built_with", if h.via_new { if h.via_capacity.is_some() { "Polynomial::with_capacity(k)" } else { "Polynomial::new()" } } else { "from_slice (coefficients reversed)" })
             .set("tolerance", tolj(h.tol))
             .set("operations_executed_in_order", J::Arr(log.clone()))
     };
@@ -470,6 +479,18 @@ fn run_hist<N: Sc>(rep: &mut Report, h: &Hist) {
                 }
                 let sn = N::from_c(*s);
                 guard(|| p *= sn)
+            }
+            GenOp::MulSRef(s) => {
+                desc = format!("p = &p * {}", cfmt(*s));
+                unit = refc.iter().map(|c| EPS * c.norm() * s.norm()).collect();
+                for c in refc.iter_mut() {
+                    *c = cmul_exact(*c, *s);
+                }
+                let sn = N::from_c(*s);
+                guard(|| {
+                    let q = &p * sn;
+                    p = q;
+                })
             }
             GenOp::DivS(s) => {
                 desc = format!("p /= {}", cfmt(*s));
@@ -643,7 +664,14 @@ fn gen_op(rng: &mut Rng, complex: bool, tol: f64) -> GenOp {
                 GenOp::SubPoly(q, rng.bool())
             }
         }
-        16 => GenOp::MulS(rand_scalar(rng, complex, -1.0, 1.0)),
+        16 => {
+            let sc = rand_scalar(rng, complex, -1.0, 1.0);
+            if rng.bool() {
+                GenOp::MulS(sc)
+            } else {
+                GenOp::MulSRef(sc)
+            }
+        }
         17 => GenOp::DivS(rand_scalar(rng, complex, -1.0, 1.0)),
         18 => GenOp::AddS(rand_scalar(rng, complex, -3.0, 3.0)),
         _ => GenOp::SubS(rand_scalar(rng, complex, -3.0, 3.0)),
@@ -659,13 +687,14 @@ fn gen_hist(rng: &mut Rng, complex: bool) -> Hist {
     decorate(rng, complex, &mut init, t);
     let n = 5 + rng.below(36);
     let ops = (0..n).map(|_| gen_op(rng, complex, t)).collect();
-    Hist { complex, init, via_new, tol, ops, x: rand_point(rng, complex, 1.5) }
+    let via_capacity = if via_new && rng.bool() { Some(rng.below(20)) } else { None };
+    Hist { complex, init, via_new, via_capacity, tol, ops, x: rand_point(rng, complex, 1.5) }
 }
 
 fn fixed_hists() -> Vec<Hist> {
     let r = |v: &[f64]| -> Vec<C64> { v.iter().map(|x| C64::new(*x, 0.0)).collect() };
     let c = |re: f64, im: f64| C64::new(re, im);
-    let mk = |complex: bool, init: Vec<C64>, via_new: bool, ops: Vec<GenOp>| Hist { complex, init, via_new, tol: None, ops, x: C64::new(0.75, 0.0) };
+    let mk = |complex: bool, init: Vec<C64>, via_new: bool, ops: Vec<GenOp>| Hist { complex, init, via_new, via_capacity: None, tol: None, ops, x: C64::new(0.75, 0.0) };
     let mut v = vec![];
     for complex in [false, true] {
         // purge exactly one above the degree (pinned tree: pops the leading term), then further above (pinned: panics)
